@@ -38,8 +38,12 @@ PROBES = [
     "view-used-after-remove_graph",
     "remove-no-graph-hit-2+graphs",
     "bnode-and-iri-same-string",
+    "quads-reader-resumed-after-mutation",
 ]
 KNOWN_PREDICATES = {
+    # an open quads() iterator meets a triple that was removed from every graph meanwhile: the store then reports the contexts of
+    # its "default context info" (those of the first triple ever added), i.e. a graph the triple never was in
+    "C02-quads-iterator-phantom-context-after-removal": lambda f: f.get("triple_fully_removed") is True and f.get("triple_was_in_window_elsewhere") is True and f.get("matches") is True,
     # ConjunctiveGraph.quads((s, p, o, g)) asks the store for the triples of g but then yields one quad per context the triple is in
     "C02-quads-pattern-yields-other-contexts": lambda f: not f.get("missing") and f.get("extra_are_other_contexts_of_matching_triples") is True and not f.get("graph_empty"),
 }
@@ -78,6 +82,8 @@ def generate(seed, tier):
         "view": g.choice([0, 1, 2]),
         "remove_context": g.choice([0, 0, 1]),
         "iadd": g.choice([0, 0, 1]),
+        "isub": g.choice([0, 0, 1]),
+        "openq": g.choice([0, 0, 1, 2]),
     }
     nsteps = g.randint(3, 40 if tier == "quick" else 70)
     model = {}
@@ -91,7 +97,16 @@ def generate(seed, tier):
     def present():
         return [(t, n) for n, ts in model.items() for t in ts]
 
+    liveq = []
+    nq = 0
     for i in range(nsteps):
+        if liveq and sched.chance(0.4):
+            r = sched.pick(liveq)
+            k = sched.choice(["stepq", "stepq", "drainq", "closeq"])
+            ops.append({"uid": i + 1, "k": k, "r": r, "n": sched.choice([1, 1, 2])})
+            if k != "stepq":
+                liveq.remove(r)
+            continue
         kind = g.weighted(list(w.items()))
         op = {"uid": i + 1, "k": kind, "via": sched.choice(["ds", "ds", "cg", "view", "storedview"])}
         if kind == "add":
@@ -127,6 +142,28 @@ def generate(seed, tier):
             op["g"] = gi()
             op["as"] = g.choice(["id", "graph", "storedview"])
             model[op["g"]] = set()
+        elif kind == "openq":
+            nq += 1
+            t = tri()
+            mask = g.randrange(8)
+            op["r"] = nq
+            op["t"] = [t[j] if mask >> j & 1 else None for j in range(3)] if g.chance(0.5) else [None, None, None]
+            op["via"] = g.choice(["ds", "cg"])
+            liveq.append(nq)
+        elif kind == "isub":
+            pres = _srt(present())
+            op["q"] = []
+            for _ in range(g.randint(1, 3)):
+                if pres and g.chance(0.8):
+                    t, n = g.pick(pres)
+                    op["q"].append([list(x) for x in t] + [n])
+                else:
+                    op["q"].append(tri() + [gi()])
+            op["triples_only"] = g.chance(0.3)
+            for q in op["q"]:
+                for n, ts in model.items():
+                    if op["triples_only"] or n == q[3]:
+                        ts.discard(tuple(tuple(x) for x in q[:3]))
         elif kind == "remove_context":
             op["g"] = gi()
             model[op["g"]] = set()
@@ -191,6 +228,7 @@ def execute(trace, ctx):
     views = {}  # id -> (Graph, gkey)
     autos = []
     store_empty = [True]
+    nmut = [0]
     touched = set()
 
     def view_of(gi, how="Graph"):
@@ -313,10 +351,46 @@ def execute(trace, ctx):
         ctx.check(gotc == unionall, "C02.cg-union", lambda: f"{where}: ConjunctiveGraph.triples(ANY) missing={_srt(unionall - gotc)} extra={_srt(gotc - unionall)}")
 
     sweep("initial")
+    qreaders = {}
+
+    def allquads():
+        return {t + (n,) for n, ts in model.items() for t in ts}
+
     for op in trace["ops"]:
         k = op["k"]
         via = op.get("via", "ds")
         ctx.op(via, k)
+        if k in ("stepq", "drainq", "closeq"):
+            r = qreaders.get(op["r"])
+            if r is None:
+                continue
+            if k == "closeq":
+                r["gen"].close()
+                del qreaders[op["r"]]
+                continue
+            for _ in range(10**6 if k == "drainq" else op.get("n", 1)):
+                try:
+                    s_, p_, o_, c_ = next(r["gen"])
+                except StopIteration:
+                    qreaders.pop(op["r"], None)
+                    break
+                except Exception as e:
+                    ctx.deviation("C02.quads-reader-raised", f"an open quads() iterator raised {type(e).__name__}: {e} when resumed after a mutation")
+                    qreaders.pop(op["r"], None)
+                    break
+                qk = tkey((s_, p_, o_)) + (norm_ctx(c_),)
+                if r["muts"] < nmut[0]:
+                    ctx.probe("quads-reader-resumed-after-mutation")
+                ctx.check(
+                    qk in r["window"] and match(r["t"], qk[:3]),
+                    "C02.quads-reader-window",
+                    lambda: f"an open quads({r['t']}) iterator yielded {qk}, a quad that matched at no moment since it was opened (window={_srt(r['window'])})",
+                    # the triple was in the window in another graph, is now in no graph at all, and matches the pattern
+                    triple_fully_removed=not any(qk[:3] in ts for ts in model.values()),
+                    triple_was_in_window_elsewhere=any(w[:3] == qk[:3] for w in r["window"]),
+                    matches=match(r["t"], qk[:3]),
+                )
+            continue
         before = {n: set(ts) for n, ts in model.items()}
         if k == "add":
             t = op["t"]
@@ -389,6 +463,22 @@ def execute(trace, ctx):
             if gk != DEF:
                 created.discard(gk)
                 removed.add(gk)
+        elif k == "openq":
+            t = op["t"]
+            h = cg if via == "cg" else ds
+            qreaders[op["r"]] = {"gen": h.quads((T(t[0]), T(t[1]), T(t[2]))), "t": t, "window": allquads(), "muts": nmut[0]}
+            continue
+        elif k == "isub":
+            ds2 = ds
+            if op.get("triples_only"):
+                ds2 -= [(T(s_), T(p_), T(o_)) for s_, p_, o_, _ in op["q"]]  # no graph given: from all graphs
+            else:
+                ds2 -= [(T(s_), T(p_), T(o_), gterm(gi_)) for s_, p_, o_, gi_ in op["q"]]  # each quad from its own graph only
+            for s_, p_, o_, gi_ in op["q"]:
+                tk_ = (skey(s_), skey(p_), skey(o_))
+                for n in model:
+                    if op.get("triples_only") or n == gkey(gi_):
+                        model[n].discard(tk_)
         elif k == "remove_context":
             # empties the graph; whether it stays registered is not constrained
             gk = gkey(op["g"])
@@ -417,6 +507,10 @@ def execute(trace, ctx):
             views[op["v"]] = (v, gk)
         else:
             raise ValueError(k)
+        nmut[0] += 1
+        added_now = allquads()
+        for r in qreaders.values():
+            r["window"] |= added_now
         changed = [n for n in model if model[n] != before.get(n, set())]
         if changed:
             ctx.probe("effective-mutation")
